@@ -269,7 +269,7 @@ def mutate(obj, kind: str, rng) -> bool:
     return True
 
 
-TRANSFORMS = ["platform", "port_nr", "protocol_nr", "resequence", "sort", "reverse", "group", "ungroup", "type"]
+TRANSFORMS = ["platform", "port_nr", "protocol_nr", "resequence", "sort", "reverse", "group", "ungroup", "type", "type-switch"]
 
 
 def _ident(obj):
@@ -307,6 +307,10 @@ def identity_check(ctx, case, obj, kind, rng) -> None:
             obj.ungroup()
         elif kind == "type":
             obj.type = obj.type
+        elif kind == "type-switch":
+            if obj.platform != "ios":
+                return
+            obj.type = "standard" if obj.type == "extended" else "extended"
         else:
             return
     except (ValueError, TypeError, AttributeError):
@@ -396,7 +400,7 @@ def execute(ctx, case: dict) -> None:
                 continue
             if kind in ("group", "ungroup") and cls != "Acl":
                 continue
-            if kind in ("port_nr", "protocol_nr", "type") and cls in ("AddrGroup", "AddressAg", "Address"):
+            if kind in ("port_nr", "protocol_nr", "type", "type-switch") and cls in ("AddrGroup", "AddressAg", "Address"):
                 continue
             if kind in ("sort", "reverse") and cls == "AddrGroup":
                 continue
